@@ -237,8 +237,77 @@ fn limited_heap_gc(pid: &str) -> Option<String> {
     None
 }
 
+/// C03: pairs of programs that denote the same computation over differently REPRESENTED atoms (an empty atom as a zero-length
+/// view of a heap atom vs the inline nil; a small integer built by concat / substr on the heap vs the inline one) must give the
+/// same result and the same cost as each other up to the cost of building the operand, so each pair is compared through a
+/// wrapper that receives the operand from the environment.
+fn representation_pairs(pid: &str) -> Option<String> {
+    // wrapper programs over the environment value (path 1)
+    let wrappers: Vec<(&str, T)> = vec![
+        ("(i 1 (q . 100) (q . 200))", op(3, vec![n(1), q(n(100)), q(n(200))])),
+        ("(not 1)", op(32, vec![n(1)])),
+        ("(any 1)", op(33, vec![n(1)])),
+        ("(all 1 (q . 1))", op(34, vec![n(1), q(n(1))])),
+        ("(+ 1 (q . 5))", op(16, vec![n(1), q(n(5))])),
+        ("(* 1 (q . 3))", op(18, vec![n(1), q(n(3))])),
+        ("(= 1 (q . 7))", op(9, vec![n(1), q(n(7))])),
+        ("(> 1 (q . 3))", op(21, vec![n(1), q(n(3))])),
+        ("(sha256 1)", op(11, vec![n(1)])),
+        ("(strlen 1)", op(13, vec![n(1)])),
+        ("(concat 1 1)", op(14, vec![n(1), n(1)])),
+        ("(logand 1 (q . 127))", op(24, vec![n(1), q(n(127))])),
+        ("(lognot 1)", op(23, vec![n(1)])),
+        ("(substr 1 (q . 0) (q . 0))", op(12, vec![n(1), q(nil()), q(nil())])),
+    ];
+    for (wname, w) in wrappers.iter() {
+        for value in [vec![], vec![7u8], vec![0x12, 0x34], vec![0x03, 0xff, 0xff, 0xff]] {
+            let mut outs: Vec<String> = vec![];
+            for repr in 0..3u8 {
+                let w2 = w.clone();
+                let v2 = value.clone();
+                let r = std::panic::catch_unwind(std::panic::AssertUnwindSafe(move || {
+                    let mut al = Allocator::new();
+                    let p = build(&mut al, &w2);
+                    // the same bytes in three representations
+                    let env = match repr {
+                        0 => al.new_atom(&v2).unwrap(),
+                        1 => {
+                            let mut padded = vec![0xeeu8; 9];
+                            padded.extend_from_slice(&v2);
+                            let big = al.new_atom(&padded).unwrap();
+                            al.new_substr(big, 9, 9 + v2.len() as u32).unwrap()
+                        }
+                        _ => {
+                            let mut pieces: Vec<NodePtr> = vec![];
+                            for b in v2.iter() {
+                                let x = al.new_atom(&[*b, 0xaa]).unwrap();
+                                pieces.push(al.new_substr(x, 0, 1).unwrap());
+                            }
+                            al.new_concat(v2.len(), &pieces).unwrap()
+                        }
+                    };
+                    match run_program(&mut al, &ChiaDialect::new(ClvmFlags::empty()), p, env, 0) {
+                        Ok(red) => format!("Ok(cost {}, {})", red.0, hex(&node_to_bytes(&al, red.1).unwrap_or_default())),
+                        Err(e) => format!("Err({e})"),
+                    }
+                }));
+                outs.push(r.unwrap_or_else(|_| "PANIC".to_string()));
+            }
+            if outs[0] != outs[1] || outs[0] != outs[2] {
+                return Some(found(pid, wname, w, format!("environment atom {} given as (a) new_atom, (b) a substring view of a heap atom, (c) a concatenation: (a) {} ; (b) {} ; (c) {}", if value.is_empty() { "nil".to_string() } else { hex(&value) }, outs[0], outs[1], outs[2])));
+            }
+        }
+    }
+    None
+}
+
 pub fn search(pid: &str) -> String {
     std::panic::set_hook(Box::new(|_| {}));
+    if pid == "C03" {
+        if let Some(f) = representation_pairs(pid) {
+            return f;
+        }
+    }
     if pid == "C04" || pid == "C13" {
         if let Some(f) = limited_heap_gc(pid) {
             return f;
